@@ -13,8 +13,14 @@ Hypotheses the proofs force (all explicit below):
 * ONE codec for compiling A, for the diff and for compiling B: the serial of `.` lines (and of `Z`
   lines without a serial) is the codec's default serial = mtime of the file being read, so the three
   mtimes must agree (or no such line may occur);
-* the diff is a *multiset* difference of the lines that reach the codec (`codecLines`: leading
-  blanks trimmed, lines shorter than 2 bytes and `#` lines dropped): `A ⊎ plus = B ⊎ minus`.
+* the diff is a *multiset* difference of the lines of the two files: `A ⊎ plus = B ⊎ minus`, on the
+  RAW lines (`applyDiff_eq_compile_rawLines`) or on the lines that reach the codec (`codecLines`:
+  leading blanks trimmed, lines shorter than 2 bytes and `#` lines dropped — `ApplyDiff` filters the
+  payload of a diff line exactly like the compiler filters a data line, so the first implies the
+  second);
+* no diff line is malformed (bad operation byte, or a payload reaching the codec that it rejects);
+  true of every diff whose payloads are lines of the two files (`diff_wellformed`,
+  `applyDiff_eq_compile_rawLines_of_files`).
   A record emitted by two different lines (or twice by a duplicated line) is stored twice and the
   removal of one of the lines removes one copy: with multisets of lines this is exactly right, a
   *set* difference of lines would be wrong.
@@ -230,8 +236,9 @@ example : ChainOk (fun l => if l = [43, 97] then some [([1], [2])] else none) []
 (the model writes only in the last step of `executeBatch`, after the whole batch was integrated in
 memory; the correspondence check compares complete raw dumps before and after). -/
 
-/-- a malformed line (bad operation byte, or a data line the codec rejects) anywhere in the diff:
-the call fails before the batch is executed -/
+/-- a malformed line (bad operation byte, or a payload that reaches the codec — at least 2 bytes
+after trimming, not a comment — and is rejected by it) anywhere in the diff: the call fails before
+the batch is executed. A bare `+` / `-`, a shorter payload or a `#` payload is skipped instead. -/
 theorem applyDiff_all_or_nothing_malformed (conv : Conv) (s : KV) (diff : List Bytes)
     (h : ∃ l ∈ diff, malformed conv l = true) :
     applyDiff conv s diff = .error .parse ∨ applyDiff conv s diff = .error .convert := by
@@ -299,6 +306,18 @@ example : ∃ e, applyDiff (fun l => if l = [43, 97] then some [([1], [2])] else
 example : applyDiff (fun l => if l = [43, 97] then some [([1], [2])] else none)
     (compileLines [] [([0], [9])]) [[43, 43, 97], [42, 43, 97]] = .error .parse := by rfl
 
+/-- not malformed (skipped like the compiler skips such data lines): a bare `+` / `-`, a payload of
+fewer than 2 bytes after trimming, a comment payload — even when the codec would reject them -/
+example : ∀ conv : Conv, ∀ l ∈ [[43], [45], [45, 32], [43, 32, 32, 67], [43, 32, 35, 120, 120], [45, 35, 120]],
+    malformed conv l = false := by
+  intro conv l hl
+  simp only [List.mem_cons, List.not_mem_nil, or_false] at hl
+  rcases hl with rfl | rfl | rfl | rfl | rfl | rfl <;> rfl
+
+/-- … whereas a payload of 2 bytes or more that the codec rejects is an error, also with leading blanks -/
+example : applyDiff (fun l => if l = [43, 97] then some [([1], [2])] else none)
+    (compileLines [] [([0], [9])]) [[43], [43, 32, 32, 88, 88]] = .error .convert := by rfl
+
 /-! ### the order of the diff lines is irrelevant -/
 
 /-- any permutation of the diff lines: if one order applies, so does the other and the two results
@@ -345,45 +364,87 @@ theorem applyDiff_order_irrelevant_error (conv : Conv) (s : KV) (m : MultiMap)
     obtain ⟨s1, _, h, _, _⟩ := applyDiff_order_irrelevant conv s m diff' diff hc hs hp.symm h2
     rw [h1] at h; cases h
 
-/-! ### what the statement does NOT cover: lines the compiler and `ApplyDiff` read differently
+/-! ### the statement on RAW file lines
 
-The compiler trims leading blanks and skips one-byte lines; `ApplyDiff` hands the rest of the diff
-line to the codec as it is. A preprocessed file may contain such lines (`Preprocess` copies them), so
-for a diff computed on the RAW lines of the files the statement is false. -/
+The compiler trims leading blanks and skips comments and lines shorter than 2 bytes; a preprocessed
+file may contain such lines (`Preprocess` copies them). `ApplyDiff` filters the payload of every diff
+line the same way, so a diff computed on the raw lines of the two files works. -/
 
-/-- the statement with the multiset difference taken on raw file lines -/
-def applyDiff_eq_compile_rawLines : Prop :=
-  ∀ (conv : Conv) (extra : Pairs) (fileA fileB diff : List Bytes) (sa sb : KV),
-    SmallConv conv → SmallRecs extra →
-    compileFile conv extra fileA = some sa → compileFile conv extra fileB = some sb →
-    (∀ l ∈ diff, classify l ≠ .bad) →
-    (fileA ++ plusOf diff).Perm (fileB ++ minusOf diff) →
-    ∃ s' m, applyDiff conv sa diff = .ok s' ∧ Represents s' m ∧ Represents sb m
-
-/-- witness: the file `" +a"` (compiled like `"+a"`), the new file empty, the diff `"- +a"`:
-the codec rejects `" +a"` and the diff fails -/
-theorem applyDiff_eq_compile_rawLines_false : ¬ applyDiff_eq_compile_rawLines := by
-  intro h
-  let conv : Conv := fun l => if l = [43, 97] then some [([1], [2])] else none
-  have hc : SmallConv conv := smallConv_single _ _ (by decide)
-  obtain ⟨s', _, h1, _⟩ := h conv [] [[32, 43, 97]] [] [[45, 32, 43, 97]]
-    (compileLines [[([1], [2])]] []) (compileLines [] []) hc (by intro p hp; cases hp)
-    (by decide) (by decide) (by decide) (by decide)
-  have : applyDiff conv (compileLines [[([1], [2])]] []) [[45, 32, 43, 97]] = .error .convert := by
-    rfl
-  rw [this] at h1
-  cases h1
-
-/-- the raw-line statement holds for files all of whose lines reach the codec unchanged -/
-theorem applyDiff_eq_compile_rawLines_partial (conv : Conv) (extra : Pairs)
-    (fileA fileB diff : List Bytes) (sa sb : KV) (hc : SmallConv conv) (he : SmallRecs extra)
-    (hcleanA : codecLines fileA = fileA) (hcleanB : codecLines fileB = fileB)
+/-- The property on raw lines. `fileA`, `fileB`: ALL lines of the two preprocessed files, as they
+are; `diff`: the lines of the diff file in any order, none malformed, with
+`fileA ⊎ (payloads of + lines) = fileB ⊎ (payloads of - lines)` as multisets of raw lines. The
+database after the diff and the fresh compilation of B are equal as maps from key to multiset of
+values. -/
+theorem applyDiff_eq_compile_rawLines (conv : Conv) (extra : Pairs) (fileA fileB diff : List Bytes)
+    (sa sb : KV) (hc : SmallConv conv) (he : SmallRecs extra)
     (hA : compileFile conv extra fileA = some sa) (hB : compileFile conv extra fileB = some sb)
     (hwf : ∀ l ∈ diff, malformed conv l = false)
-    (hdiff : (fileA ++ plusOf diff).Perm (fileB ++ minusOf diff)) :
+    (hdiff : (fileA ++ rawPlusOf diff).Perm (fileB ++ rawMinusOf diff)) :
+    ∃ s' m, applyDiff conv sa diff = .ok s' ∧ Represents s' m ∧ Represents sb m := by
+  apply applyDiff_eq_fresh_compile conv extra fileA fileB diff sa sb hc he hA hB hwf
+  have := codecLines_perm hdiff
+  rwa [codecLines_append, codecLines_append, ← plusOf_eq_codecLines, ← minusOf_eq_codecLines] at this
+
+/-- a diff whose payloads are raw lines of the two files (every `+` payload a line of B, every `-`
+payload a line of A) and whose other lines are comments or empty is never malformed -/
+theorem diff_wellformed_rawLines (conv : Conv) (extra : Pairs) (fileA fileB diff : List Bytes)
+    (sa sb : KV)
+    (hA : compileFile conv extra fileA = some sa) (hB : compileFile conv extra fileB = some sb)
+    (hop : ∀ l ∈ diff, classify l ≠ .bad)
+    (hplus : ∀ p ∈ rawPlusOf diff, p ∈ fileB) (hminus : ∀ p ∈ rawMinusOf diff, p ∈ fileA) :
+    ∀ l ∈ diff, malformed conv l = false := by
+  have acc : ∀ (file : List Bytes) (s : KV), compileFile conv extra file = some s →
+      ∀ l ∈ codecLines file, (conv l).isSome := by
+    intro file s h
+    unfold compileFile at h
+    cases hca : convertAll conv (codecLines file) with
+    | none => rw [hca] at h; cases h
+    | some per => exact (convertAll_eq hca).2
+  have sub : ∀ (raw file : List Bytes), (∀ p ∈ raw, p ∈ file) →
+      ∀ p ∈ codecLines raw, p ∈ codecLines file := by
+    intro raw file h p hp
+    obtain ⟨l, hl, e, hs⟩ := mem_codecLines.1 hp
+    exact mem_codecLines.2 ⟨l, h l hl, e, hs⟩
+  apply diff_wellformed conv (codecLines fileA) (codecLines fileB) diff (acc fileA sa hA)
+    (acc fileB sb hB) hop
+  · rw [plusOf_eq_codecLines]; exact sub _ _ hplus
+  · rw [minusOf_eq_codecLines]; exact sub _ _ hminus
+
+/-- the raw-line statement for such diffs, without mentioning the codec's verdicts -/
+theorem applyDiff_eq_compile_rawLines_of_files (conv : Conv) (extra : Pairs)
+    (fileA fileB diff : List Bytes) (sa sb : KV) (hc : SmallConv conv) (he : SmallRecs extra)
+    (hA : compileFile conv extra fileA = some sa) (hB : compileFile conv extra fileB = some sb)
+    (hop : ∀ l ∈ diff, classify l ≠ .bad)
+    (hplus : ∀ p ∈ rawPlusOf diff, p ∈ fileB) (hminus : ∀ p ∈ rawMinusOf diff, p ∈ fileA)
+    (hdiff : (fileA ++ rawPlusOf diff).Perm (fileB ++ rawMinusOf diff)) :
     ∃ s' m, applyDiff conv sa diff = .ok s' ∧ Represents s' m ∧ Represents sb m :=
-  applyDiff_eq_fresh_compile conv extra fileA fileB diff sa sb hc he hA hB hwf
-    (by rw [hcleanA, hcleanB]; exact hdiff)
+  applyDiff_eq_compile_rawLines conv extra fileA fileB diff sa sb hc he hA hB
+    (diff_wellformed_rawLines conv extra fileA fileB diff sa sb hA hB hop hplus hminus) hdiff
+
+/-- non-vacuity, the former counterexamples: the file `" +a"`, `"C"`, `"+a"` (the first compiled like
+`"+a"`, the second skipped by the compiler); the diff removes `" +a"` and `"C"`, adds the one-byte
+line `"D"`, an empty line (a bare `+`) and the comment line `" #x"`. It applies; the result is the
+database of the file `"+a"`, `"D"`, `""`, `" #x"`. -/
+example :
+    let conv : Conv := fun l => if l = [43, 97] then some [([1], [2])] else none
+    ∃ s' m, applyDiff conv (compileLines [[([1], [2])], [([1], [2])]] [([0], [9])])
+        [[45, 32, 43, 97], [45, 67], [43, 68], [43], [43, 32, 35, 120]] = .ok s' ∧
+      Represents s' m ∧ Represents (compileLines [[([1], [2])]] [([0], [9])]) m := by
+  intro conv
+  exact applyDiff_eq_compile_rawLines_of_files conv [([0], [9])] [[32, 43, 97], [67], [43, 97]]
+    [[43, 97], [68], [], [32, 35, 120]]
+    [[45, 32, 43, 97], [45, 67], [43, 68], [43], [43, 32, 35, 120]] _ _
+    (smallConv_single _ _ (by decide)) (by decide) (by decide) (by decide) (by decide) (by decide)
+    (by decide) (by decide)
+
+/-- the hypothesis "no malformed line" cannot be dropped from `applyDiff_eq_compile_rawLines`: a line
+the codec rejects, added and removed by the same diff, keeps the multiset equation and fails -/
+example :
+    let conv : Conv := fun l => if l = [43, 97] then some [([1], [2])] else none
+    ([] ++ rawPlusOf [[43, 88, 88], [45, 88, 88]]).Perm ([] ++ rawMinusOf [[43, 88, 88], [45, 88, 88]]) ∧
+    applyDiff conv (compileLines [] []) [[43, 88, 88], [45, 88, 88]] = .error .convert := by
+  intro conv
+  exact ⟨by decide, by rfl⟩
 
 /-- ONE codec is a real hypothesis: the file compiled with one default serial and the diff read with
 another (different mtimes) — the `-` line of a `.` line no longer matches what is stored -/
